@@ -167,6 +167,65 @@ def program_symbols(program):
     return variables, free - variables
 
 
+def probability_vectors(program):
+    """every probability vector of the program: (list of expressions, must_sum_to_one)"""
+    out = []
+
+    def walk(stmts):
+        for s_ in stmts:
+            name = type(s_).__name__
+            if name == "IfStatem":
+                for b in s_.branches:
+                    walk(b)
+                if s_.else_branch:
+                    walk(s_.else_branch)
+            elif name == "PolyAssignment":
+                out.append(([sympy.sympify(p) for p in s_.probabilities], True))
+            elif name == "DistAssignment":
+                d = s_.distribution
+                if type(d).__name__ == "Categorical":
+                    out.append(([sympy.sympify(p) for p in d.probabilities], True))
+                elif type(d).__name__ == "Bernoulli":
+                    out.append(([sympy.sympify(d.p), 1 - sympy.sympify(d.p)], True))
+    walk(program.initial)
+    walk(program.loop_body)
+    return [c for c in out if any(e.free_symbols for e in c[0])]
+
+
+def solve_vectors(point, constraints, free):
+    """adjust one free symbol per vector so that the vector sums to 1 (when it is linear in that symbol)"""
+    point = dict(point)
+    for exprs, _ in constraints:
+        total = sum(exprs)
+        sub = {sympy.Symbol(k): sympy.Rational(v) for k, v in point.items()}
+        val = total.xreplace(sub)
+        if val.free_symbols:
+            return None
+        if val == 1:
+            continue
+        cands = [str(x) for x in total.free_symbols if str(x) in free]
+        fixed = False
+        for c in cands:
+            sub2 = {k: v for k, v in sub.items() if str(k) != c}
+            sol = sympy.solve(sympy.Eq(total.xreplace(sub2), 1), sympy.Symbol(c))
+            if sol and sol[0].is_Rational:
+                point[c] = f"{int(sol[0].p)}/{int(sol[0].q)}"
+                fixed = True
+                break
+        if not fixed:
+            return None
+    return point
+
+
+def vectors_valid(point, constraints):
+    sub = {sympy.Symbol(k): sympy.Rational(v) for k, v in point.items()}
+    for exprs, _ in constraints:
+        vals = [e.xreplace(sub) for e in exprs]
+        if any(v.free_symbols or v < 0 or v > 1 for v in vals) or sum(vals) != 1:
+            return False
+    return True
+
+
 def initialised_vars(program):
     return all_assign_vars(program.initial, set())
 
@@ -305,12 +364,25 @@ def job_analyze(job):
         k = int(points.split(":")[1]) if ":" in points else 2
         points = [{} for _ in range(k if symbols else 1)]
     full = []
+    constraints = probability_vectors(program)
     for i, pt in enumerate(points):
         pt = dict(pt)
-        for j, sname in enumerate(symbols):
-            if sname not in pt:
-                pt[sname] = f"1/{2 + (i + j) % 3}"
-        full.append(pt)
+        missing = [sname for sname in symbols if sname not in pt]
+        cand = None
+        for attempt in range(60):
+            trial = dict(pt)
+            for j, sname in enumerate(missing):
+                trial[sname] = f"1/{2 + (i + j + attempt * (j + 1)) % 5}"
+            trial = solve_vectors(trial, constraints, set(missing))
+            if trial is not None and vectors_valid(trial, constraints):
+                cand = trial
+                break
+        if cand is None:
+            cand = dict(pt)
+            for j, sname in enumerate(missing):
+                cand[sname] = f"1/{2 + (i + j) % 3}"
+            res.setdefault("point_notes", []).append("no parameter point found that makes all probability vectors valid")
+        full.append(cand)
     points = full
     res["points_used"] = points
     if job.get("goals") == "auto":
